@@ -561,8 +561,11 @@ func VerifyLinkSignatureThesholds(layout Layout,
 		// authorized, the layout contains a verification key and the signature
 		// verification passes.  Only good links are stored, to verify thresholds
 		// below.
-		isAuthorizedSignature := false
 		for signerKeyID, linkEnv := range linksPerStep {
+			// Must be reset for every link: a link authorized by a listed
+			// public key must not exempt the following links from the
+			// certificate check (or keep them from being checked at all).
+			isAuthorizedSignature := false
 			for _, authorizedKeyID := range step.PubKeys {
 				if signerKeyID == authorizedKeyID {
 					if verifierKey, ok := layout.Keys[authorizedKeyID]; ok {
